@@ -12,13 +12,15 @@ from __future__ import annotations
 
 import z3
 
-from pyvc.core import BOOL, INT, SV, TObj, Snapshot, PyExc, declare_class, declare_exception
-from pyvc.interp import Builtin, BoundMethod, ClassRef
+from pyvc.core import BOOL, INT, SV, TList, TObj, Snapshot, PyExc, declare_class, declare_exception
+from pyvc.interp import Builtin, BoundMethod, ClassRef, LoopSpec
 from pyvc.model import Contract, GenSpec, Model, Param
 
 REL = "rdflib/plugins/sparql/evaluate.py"
 CTX, CV = TObj("QueryContext"), TObj("CompValue")
 SOLS = z3.Function("solutions_of_operand", z3.IntSort(), z3.IntSort(), z3.ArraySort(z3.IntSort(), z3.BoolSort()))
+SOLSG = z3.Function("solutions_of_operand_under_active_graph", z3.IntSort(), z3.IntSort(), z3.IntSort(),
+                    z3.ArraySort(z3.IntSort(), z3.BoolSort()))
 ebv_true = z3.Function("_ebv_is_true", z3.IntSort(), z3.IntSort(), z3.BoolSort())          # (expr, scoped solution)
 forget = z3.Function("forget", z3.IntSort(), z3.IntSort(), z3.IntSort(), z3.IntSort())     # (c, ctx, except)
 eval_err = z3.Function("_eval_is_error", z3.IntSort(), z3.IntSort(), z3.BoolSort())
@@ -32,13 +34,16 @@ class EvalModel(Model):
 
     def __init__(self):
         super().__init__()
-        declare_class("QueryContext", fields={})
+        # `graph`: the context's active graph (abstract value); a CONSUMER of the solutions may change it between two
+        # solutions (evalGraph does: x.ctx.graph = prev_graph), so what evalPart returns depends on it
+        declare_class("QueryContext", fields={"graph": INT})
         declare_class("CompValue", fields={"p": INT, "p1": INT, "p2": INT, "expr": INT, "_vars": INT, "no_isolated_scope": BOOL,
                                            "var": INT})
         declare_exception("SPARQLError", "Exception")
         g = self.globals
         g["SPARQLError"] = ClassRef("SPARQLError")
         g["evalPart"] = Builtin("evalPart", lambda it, a, k: self.sols(it, a[0].z, it.path.inject(INT, a[1])))
+        g["evalPartG"] = None
         g["_ebv"] = Builtin("_ebv", lambda it, a, k: SV(BOOL, ebv_true(it.path.inject(INT, a[0]), a[1].z)))
         g["_eval"] = Builtin("_eval", self.b_eval)
         self.assumptions += ["evalPart, _ebv (error-as-false inside), _eval (value, SPARQLError raised, or SPARQLError object "
@@ -47,8 +52,18 @@ class EvalModel(Model):
 
     @staticmethod
     def sols(it, ctx, p):
+        # the operand's solutions under the context's CURRENT active graph
+        gnow = it.path.get_field_z(ctx, "QueryContext", "graph")
         arr = SOLS(ctx, p)
-        return Snapshot(INT, lambda z: arr[z], False)
+        arr2 = SOLSG(ctx, gnow, p)
+        return Snapshot(INT, lambda z: z3.And(arr[z], arr2[z]), False)
+
+    def new_list(self, it, items, node):
+        if not items:
+            r = it.path.new_ref(TList(INT))
+            it.path.set_content(r, z3.Empty(z3.SeqSort(z3.IntSort())))
+            return r
+        return super().new_list(it, items, node)
 
     def b_eval(self, it, a, k):
         p = it.path
@@ -86,8 +101,17 @@ class EvalModel(Model):
         def F(c, name, fld):
             return c.old.field("CompValue", fld, c.args[name].z)
 
+        class _Operand:
+            def __init__(self, c, name, fld):
+                self.ctx = c.args["ctx"].z
+                self.g0 = c.old.field("QueryContext", "graph", self.ctx)
+                self.p = F(c, name, fld)
+
+            def __getitem__(self, z):
+                return z3.And(SOLS(self.ctx, self.p)[z], SOLSG(self.ctx, self.g0, self.p)[z])
+
         def operand(c, name, fld="p"):
-            return SOLS(c.args["ctx"].z, F(c, name, fld))
+            return _Operand(c, name, fld)
         pre = lambda nm: (lambda c: z3.And(c.args["ctx"].z > 0, c.args[nm].z > 0))       # noqa: E731
 
         def f_member(c, z):
@@ -109,6 +133,52 @@ class EvalModel(Model):
                           gen=GenSpec(INT, e_member, distinct=False, complete=True), modifies=[], allocates=True,
                           note="BIND: each solution is extended by var := value, or passed through unchanged when the "
                                "expression is an error; no solution is dropped"))
+
+        # ---- UNION: both operands are evaluated under the context as it is at the call (the consumer of the solutions may
+        # change ctx.graph between two solutions: interference at every yield, if the function is or becomes a generator)
+        LI = TList(INT)
+
+        def u_sols(c, fld):
+            ctx = c.args["ctx"].z
+            g0 = c.old.field("QueryContext", "graph", ctx)
+            p = F(c, "union", fld)
+            return lambda z: z3.And(SOLS(ctx, p)[z], SOLSG(ctx, g0, p)[z])
+
+        def u_member(c, z):
+            return z3.Or(u_sols(c, "p1")(z), u_sols(c, "p2")(z))
+
+        def u_inv(first):
+            def inv(lc):
+                c = lc.interp.callctx
+                if not isinstance(lc.env.get("branch1_branch2"), SV):
+                    return z3.BoolVal(True)       # the function does not build its result in that list (any more)
+                seq = lc.path.content(lc.env["branch1_branch2"])
+                z = z3.Int("u_z")
+                have = z3.Contains(seq, z3.Unit(z))
+                if first:
+                    return z3.ForAll([z], have == lc.done[z])
+                return z3.ForAll([z], have == z3.Or(u_sols(c, "p1")(z), lc.done[z]))
+            return inv
+
+        class ConsumerInterference:
+            """between two solutions handed to the consumer, the consumer may set ctx.graph to anything"""
+            def on_yield(self, it, cc, v, z, node):
+                it.path.oblige(f"yield@{node.lineno}.sound-wrt-the-context-at-the-call", u_member(cc, z), it.where(node),
+                               "yield-sound")
+
+            def after_yield(self, it, cc, node):
+                it.path.havoc_field("QueryContext", "graph", "consumer")
+        cu = Contract("C04", REL, "evalUnion", [Param("ctx", CTX), Param("union", CV)], pre=pre("union"),
+                      gen=GenSpec(INT, u_member, distinct=False, complete=True), modifies=[LI], allocates=True,
+                      loops={0: LoopSpec(u_inv(True), modifies=[LI], var_types={"x": "poison"},
+                                         fingerprint=None),
+                             1: LoopSpec(u_inv(False), modifies=[LI], var_types={"x": "poison"},
+                                         fingerprint=None)},
+                      note="UNION returns exactly the solutions of its two operands, BOTH evaluated under the context as it is "
+                           "at the call - whatever the consumer does to the context between two solutions (set-level; "
+                           "multiplicities bounded)")
+        cu.interference = ConsumerInterference()
+        self.add(cu)
 
 
 def build():
